@@ -344,6 +344,20 @@ func (r *Raft) restore() error {
 		if err := r.fsm.Restore(file); err != nil {
 			return fmt.Errorf("could not restore state machine with snapshot: %w", err)
 		}
+
+		// The node may have crashed after a received snapshot became visible but before its log
+		// was trimmed. If the log starts before the snapshot and does not contain the last
+		// included entry, nothing in it is known to be consistent with the snapshot (it is too
+		// short or holds a conflicting suffix): start the log behind the snapshot, as the
+		// installation would have done.
+		if firstIndex := r.log.LastIndex() - uint64(r.log.Size()); firstIndex < metadata.LastIncludedIndex {
+			entry, _ := r.log.GetEntry(metadata.LastIncludedIndex)
+			if entry == nil || entry.Term != metadata.LastIncludedTerm {
+				if err := r.log.DiscardEntries(metadata.LastIncludedIndex, metadata.LastIncludedTerm); err != nil {
+					return fmt.Errorf("could not discard log entries: %w", err)
+				}
+			}
+		}
 		configuration, err := r.transport.DecodeConfiguration(metadata.Configuration)
 		if err != nil {
 			return fmt.Errorf("could not decode snapshot configuration: %w", err)
